@@ -18,6 +18,7 @@ import Driver.CompOps
 import Driver.EngineOps
 import Driver.GhgOps
 import Driver.NoxOps
+import Driver.IntegrateOps
 open Lean Driver
 
 def dispatch (op : String) (j : Json) : Except String Json :=
@@ -34,6 +35,7 @@ def dispatch (op : String) (j : Json) : Except String Json :=
   | "hours" => hoursOp j
   | "ghg" => ghgOp op j
   | "nox" => noxOp op j
+  | "integrate" => integrateOp op j
   | _ => .error s!"unknown op family in '{op}'"
 
 def handle (line : String) : String :=
